@@ -1,0 +1,7 @@
+//go:build !verif
+
+package file
+
+// VerifPoint marks a file-system step for the verification harness (build tag "verif").
+// Without the tag it does nothing.
+func VerifPoint(name string) {}
